@@ -725,16 +725,14 @@ impl<'forest, I: Interner> SolveState<'forest, I> {
                 // "conditional" (maybe true, maybe not).
                 let answer = self.forest.answer(subgoal_table, answer_index);
 
-                // By construction, we do not expect negative subgoals
-                // to have delayed subgoals. This is because we do not
-                // need to permit `not { L }` where `L` is a
-                // coinductive goal. We could improve this if needed,
-                // but it keeps things simple.
-                if !answer.subst.value.delayed_subgoals.is_empty() {
-                    panic!("Negative subgoal had delayed_subgoals");
-                }
+                // An answer with delayed subgoals is conditional on a
+                // coinductive cycle that has not been resolved yet
+                // (`not { L }` where `L` reaches such a cycle). It neither
+                // proves nor disproves the subgoal, so we treat it like an
+                // ambiguous answer below.
+                let conditional = !answer.subst.value.delayed_subgoals.is_empty();
 
-                if !answer.ambiguous {
+                if !answer.ambiguous && !conditional {
                     // We want to disproval the subgoal, but we
                     // have an unconditional answer for the subgoal,
                     // therefore we have failed to disprove it.
